@@ -654,6 +654,10 @@ def g_atom(rng, d=0):
     return rng.choice(["'$A'", '"x $B y"', "'it''s'", "'# no'", "r'\\d$C'", "'é😀'", '"a\\"b"', "'''t $A'''", "'\\n'"])
   if k < 0.6:
     return "rec." + rng.choice(NAMES)
+  if k < 0.62:
+    # a single- or double-quoted literal continued over a physical line with backslash-newline: its next
+    # line is INSIDE the string and must not be indented when the body is put into the function
+    return rng.choice(["'ab\\\ncd'", '"x\\\n  y $A"', "'p-\\\nq' + 'r'", "b'q\\\nr'", 'f"u\\\n{1}"', "'\\\n'"])
   if k < 0.65:
     return rng.choice(["None", "True", "[]", "{}", "()", "x", "DOLLARA", "rec.id"])
   if k < 0.7 and d < 3:
